@@ -115,4 +115,56 @@ theorem inv_output (r T : Int) (samples : List (Smp α)) (st : St α) (h : Inv r
   apply List.filter_congr
   intro s hsm; have := hcons s hsm; simp [inWin, this]
 
+
+/-- the fresh iterator satisfies the invariant for any time that precedes every sample -/
+theorem inv_fresh (r T0 : Int) (samples : List (Smp α)) (h0 : ∀ s ∈ samples, T0 < s.ts) :
+    Inv r T0 samples ⟨[], samples⟩ :=
+  ⟨⟨[], by simp, by simp, by simp⟩, h0⟩
+
+theorem run_from_inv (r : Int) (hr : 0 ≤ r) (samples : List (Smp α)) (hs : SortedTs samples) :
+    ∀ (grid : List Int) (T : Int) (st : St α), Inv r T samples st → (∀ T' ∈ grid, T ≤ T') →
+      grid.Pairwise (· ≤ ·) → run r grid st = grid.map (fun T' => (T', specAt r T' samples)) := by
+  intro grid
+  induction grid with
+  | nil => intros; rfl
+  | cons T' grid ih =>
+    intro T st hinv hle hpw
+    have hinv' := step_inv r T T' hr (hle T' (by simp)) samples hs st hinv
+    simp only [run, List.map_cons]
+    rw [inv_output r T' samples _ hinv']
+    congr 1
+    exact ih T' _ hinv' (List.pairwise_cons.mp hpw).1 (List.pairwise_cons.mp hpw).2
+
+/-- C09: for time-sorted samples and a non-decreasing grid, the sliding-window iterator reports at every grid
+    time exactly the samples of the closed window `[T - r, T]`. -/
+theorem run_spec (r : Int) (hr : 0 ≤ r) (samples : List (Smp α)) (hs : SortedTs samples)
+    (grid : List Int) (hpw : grid.Pairwise (· ≤ ·)) :
+    run r grid ⟨[], samples⟩ = grid.map (fun T => (T, specAt r T samples)) := by
+  -- a time before every sample and every grid point
+  let lo : Int := (samples.map (·.ts) ++ grid).foldl min 0 - 1
+  have hlo : ∀ x ∈ samples.map (·.ts) ++ grid, lo < x := by
+    have key : ∀ (l : List Int) (a : Int), l.foldl min a ≤ a ∧ ∀ x ∈ l, l.foldl min a ≤ x := by
+      intro l
+      induction l with
+      | nil => intro a; simp
+      | cons y l ih =>
+        intro a
+        have h1 := ih (min a y)
+        simp only [List.foldl_cons]
+        refine ⟨by have := h1.1; omega, ?_⟩
+        intro x hx
+        rcases List.mem_cons.mp hx with rfl | hx
+        · have := h1.1; omega
+        · exact h1.2 x hx
+    intro x hx
+    have := (key _ 0).2 x hx
+    show (samples.map (·.ts) ++ grid).foldl min 0 - 1 < x
+    omega
+  apply run_from_inv r hr samples hs grid lo ⟨[], samples⟩
+  · exact inv_fresh r lo samples (fun s hsm => hlo s.ts (by simp; exact Or.inl ⟨s, hsm, rfl⟩))
+  · intro T' hT'
+    have := hlo T' (by simp [hT'])
+    omega
+  · exact hpw
+
 end Win
